@@ -206,6 +206,16 @@ impl Ctx {
         let mut runs = Vec::with_capacity(cases.len());
         let t_impl = Instant::now();
         for c in cases {
+            // evidence: the first cases of a run, as they are (operation lines, long payloads shortened)
+            if self.samples.len() < 3 && !c.lines.is_empty() {
+                let mut j = J::obj();
+                j.set("case", J::s(&c.name));
+                j.set("lines", J::strs(&c.lines.iter().take(14).map(|l| short(l)).collect::<Vec<_>>()));
+                if c.lines.len() > 14 {
+                    j.set("more_lines", J::Num(c.lines.len() as f64 - 14.0));
+                }
+                self.samples.push(j);
+            }
             let r = run_impl(c);
             self.evaluations += 1;
             self.distinct.insert(fnv(&c.lines.join("\n")));
